@@ -803,6 +803,10 @@ def veq(a, b):
             if e is not True:
                 terms.append(e.t)
         return mkbool(z3.And(*terms)) if terms else r
+    if {ka, kb} == {'any', 'str'}:
+        # an untyped value compared with a str: an instance of a str subclass (MibStatus) compares by its str value
+        t, sv = (lift(a), lift(b)) if ka == 'any' else (lift(b), lift(a))
+        return mkbool(z3.If(z3.And(PV.is_PObj(t), PV.is_PStr(PV.sval(t))), PV.sval(t) == sv, t == sv))
     if ka != 'any' and kb != 'any' and ka != kb and not ({ka, kb} <= {'bool', 'int'}):
         if {ka, kb} <= {'list', 'tuple', 'dict', 'set', 'none', 'str', 'int', 'bool', 'bytes'}:
             return False
